@@ -379,11 +379,26 @@ func pinnedHistory(idx int, g *wsclient.Gen, seed int64) *history {
 			{Kind: "unsub", ID: "c", Wait: true},
 			{Kind: "sync"},
 		}}
+	case 4, 5, 6, 7: // stress: unsubscribe racing the wake-up of a (re-)run under flush contention, many times
+		// (four of them so that the driver's shards run them in parallel)
+		cfg.MaxSubs, cfg.MinRerunUS = 4, []int{200, 200, 100, 400}[idx-4]
+		cfg.AlwaysSpawn = idx == 5 || idx == 7
+		cfg.YieldIntensity = []int{0, 0, 10, 0}[idx-4]
+		a := g.AddOp(wsclient.Op{Cell: "n", Val: int64(2000)})
+		b := g.AddOp(wsclient.Op{Cell: "n", Val: int64(2001)})
+		c := g.AddOp(wsclient.Op{Cell: "n", Val: int64(2002)})
+		return &history{Name: "stop-vs-wakeup-storm", Cfg: cfg, EndByClose: true, Steps: []wsclient.Step{
+			{Kind: "storm", N: stormRounds, Landing: []int{a, b, c}},
+			{Kind: "close", Wait: true},
+		}}
 	}
 	return nil
 }
 
-const numPinned = 4
+// stormRounds is set by TestCheck from the tier.
+var stormRounds = 2000
+
+const numPinned = 8
 
 func TestCheck(t *testing.T) {
 	log.SetOutput(io.Discard)
@@ -392,11 +407,12 @@ func TestCheck(t *testing.T) {
 	run.Rule("histories over one websocket connection (scripted JSONSocket, recording SubscriptionLogger, WithMaxSubscriptions 2-4, 0-9 pass-through middlewares): 10-35 steps of subscribe / unsubscribe / mutate / echo / url / malformed envelopes with ids from a pool of 3 shared by ALL message types (plus fresh ids), undecodable frames, " +
 		"writes and invalidate-everything steps, resolver failures (initial and on re-run; plain, safe, and errors wrapping context.Canceled / DeadlineExceeded of a resolver-owned context; failing mutations), context cancellation, socket close at a random step (ReadJSON error) or through a failing WriteJSON, gate steps (a resolver of an in-flight run is held while an unsubscribe(+re-subscribe) / close / cancel / colliding mutate / subscribe lands), " +
 		"an unsubscribe-all / close sent a fraction of the write-then-read delay after a write that invalidates an idle subscription, a failing-subscribe+unsubscribe+re-subscribe motif, unsubscribe+subscribe played while a closeSubscription call is held at its entry, writes injected at hook points; every subscription query carries a unique tag that its resolvers log and a field that creates a reactive.Resource with a Cleanup counter. " +
-		"reactive.WriteThenReadDelay is 0 in 2/5 of the histories and 0.5-3 ms in the rest. Every history ends with socket close, three invalidate-everything settle rounds and a quiescence wait. 4 pinned histories first. Non-trivial = the history has an end-by-close, an id collision or a failure. Distinct = step-kind sequence + end kinds of the instances.")
+		"reactive.WriteThenReadDelay is 0 in 2/5 of the histories and 0.5-3 ms in the rest. Every history ends with socket close, three invalidate-everything settle rounds and a quiescence wait. 8 pinned histories first; the last four are stress histories, each 2000 (thorough 6000) rounds of subscribe x4 / one write invalidating all / mutation + unsubscribe x4 pipelined at once, with a per-round timing jitter (Stop racing the wake-up of a re-run or of the initial run, under RerunImmediately contention). Non-trivial = the history has an end-by-close, an id collision or a failure. Distinct = step-kind sequence + end kinds of the instances.")
 	run.Assume("a subscription instance is a logger Subscribe call inside the handle window of a subscribe message; it ends at the first of: logger Unsubscribe(id), read-enter after its unsubscribe message, ServeJSONSocket returned")
 	run.Assume("Unsubscribe logger calls for ids of mutations (never subscribed) are tolerated")
 	run.Assume("rejecting a subscribe early (a mutation in flight occupies a slot or an id) is not a violation")
 	n := run.N(80, 3000)
+	stormRounds = run.N(2000, 6000)
 	agg := vlib.NewHitAgg()
 	defer agg.Report(run)
 	run.Each(n, 1, func(i int) {
